@@ -15,9 +15,12 @@ def leaf_roles(prog):
     if getattr(prog, "_leaf_roles", None) is not None:
         return prog._leaf_roles
     out = set()
+    plumbing = prog.plumbing_fns()
     for k, f in prog.fns.items():
         imp = f.get("impl") or {}
         st = imp.get("self") or ""
+        if k in plumbing:
+            continue                                     # small loop-free methods / conversions of private helper types: spliced in everywhere
         if imp.get("trait") and not (imp["trait"] in CONVERSION_TRAITS and not any(st.startswith(t) for t in LEAF_SELF_TYPES)):
             out.add(k)                                   # trait impl methods (Method, Ord, Display, Utility, …) — but a conversion
                                                          # (From / Default / AsRef …) into a private helper type is plumbing and is spliced in
